@@ -82,6 +82,8 @@ def decide(run: core.Run, rule: str, search):
                                                    "also_broken": broken})
         lines.append(f"VIOLATION property={prop} replay={path}")
         lines.append(f"  {f['key']}: {f['desc'][:300]}")
+        if minimal and "mol" in minimal:
+            lines.append(f"  shrunk to {minimal['atoms']} atoms / {minimal['bonds']} bonds: {json.dumps(minimal['mol'])[:300]}")
         rc = 1
     elif broken and not known_hits:
         path = core.write_replay(prop, "unchecked", {"property": prop, "no_longer_checks": broken, "seed": run.seed,
